@@ -673,6 +673,18 @@ def _flows_from_set_graph(f: FuncInfo, arg, call) -> bool:
                                  and m.lineno > n.lineno]  # fmt: skip
                         if not later:
                             return True
+        # through a loop that applies the hook to every element of the very collection that is linked afterwards:
+        #   for n in nodes: self._set…(n)   …   self._nodes.extend(nodes)
+        # (the hook hands its argument back, so linking the collection itself links the adopted nodes); the loop runs to
+        # completion - no break / continue / return inside - and the collection is not rebound in between
+        for lp in (x for x in own_nodes(f.node) if isinstance(x, ast.For) and isinstance(x.target, ast.Name) and norm(x.iter) == arg.id):
+            hooked = any(is_self_call(c, HOOK) and c.args and norm(c.args[0]) == lp.target.id for st in lp.body for c in ast.walk(st) if isinstance(c, ast.Call))
+            exits = any(isinstance(x, (ast.Break, ast.Continue, ast.Return)) for st in lp.body for x in ast.walk(st))
+            a, b = [x for x in cfg.node_of(lp) if x.kind == "iter"], cfg.nodes_containing(call)
+            rebound = [m for m in own_nodes(f.node) if isinstance(m, ast.Assign) and any(isinstance(t, ast.Name) and t.id == arg.id for t in m.targets)
+                       and m.lineno > lp.lineno and m.lineno < call.lineno]
+            if hooked and not exits and a and b and cfg.dominates(a[0], b[0]) and not rebound:
+                return True
     return False
 
 
